@@ -156,7 +156,10 @@ def check_docs(ctx, docs, max_sub, n0, nw, seen_rate):
             if not pp.in_domain(T):
                 continue
             nodes = tag_nodes_with_paths(doc)
-            picks = [0] + sorted(ctx.rng.sample(range(1, len(nodes)), min(max_sub, len(nodes) - 1)))
+            if kind == "deep":
+                picks = list(range(0, len(nodes), 3))
+            else:
+                picks = [0] + sorted(ctx.rng.sample(range(1, len(nodes)), min(max_sub, len(nodes) - 1)))
             for idx in picks:
                 node, rp = nodes[idx]
                 t = extract(node)
@@ -264,6 +267,9 @@ def gen_docs(ctx, n):
     for _ in range(n // 7):
         xml, hint = gen_coincidence(ctx.rng)
         docs.append(("coincidence", xml, hint))
+    # deep chains (9-12 nested elements): indentation of lines 8 and more levels below the serialization root
+    for d, ds in ([(9, True), (11, False)] if ctx.tier == "quick" else [(9, True), (10, False), (12, True), (12, False)]):
+        docs.append(("deep", to_xml(pp.gen_deep_chain(ctx.rng, d, data_style=ds)), ctx.rng.choice([8, 12, 20, 40])))
     return docs
 
 
@@ -286,7 +292,7 @@ def run(ctx, args):
         rule="documents: fixed cases + random mixed-content documents of depth <= 3 (texts with words whose ends are "
              "biased to width-1/width/width+1, long unbreakable words, escaped characters, comments/PIs between texts, "
              "empty elements, attributes, xml:space preserve/default/invalid at any depth, preserved content with "
-             "newlines) + conventionally laid out documents; parsed with reduce_whitespace; serialized from the root and "
+             "newlines) + conventionally laid out documents + chains of 9-12 nested elements; parsed with reduce_whitespace; serialized from the root and "
              "from sampled sub-trees with indentation in {'', ' ', '  ', '\\t', ' \\t'} x width in {0..12, 20, 40, 80} x "
              "align in {F, T} (option sets drawn per tree; widths biased to the document's word lengths). "
              "One evaluation = one (tree, options) output compared byte for byte with the model and re-read through the "
